@@ -19,7 +19,7 @@ RULE = ("case = one generated project with 2-6 source files x mode (check|edit);
         "sig_before/sig_after with signo 2 and 15 at operation k (quick: sampled, thorough: every k from the first source-dir "
         "operation on, plus start-up boundaries), plus signal+I/O-fault and two-signal plans. Non-trivial = signal delivered; "
         "distinct = (world, mode, k, action, signo).")
-PROBES = ["stdout_gone_with_signal", "stalled_operation_after_signal", "unreadable_files_in_tree", "check_twin_passes", "signal_in_startup", "signal_in_discovery", "signal_in_pass1", "signal_in_pass2", "signal_after_last_file",
+PROBES = ["signal_while_printing", "stdout_gone_with_signal", "stalled_operation_after_signal", "unreadable_files_in_tree", "check_twin_passes", "signal_in_startup", "signal_in_discovery", "signal_in_pass1", "signal_in_pass2", "signal_after_last_file",
           "signal_plus_fault", "two_signals"]
 ASSUMPTIONS = ["'has begun scanning the sources' = first operation on the source directory in the trace",
                "one more source file may be started after the signal (the stop flag is polled between files)"]
@@ -100,6 +100,8 @@ def evaluate(wm, knobs, plan, check, ctx, twin=None):
         extra = "+stall"
     if plan.get("stdout_sig"):
         extra = "+stdout-gone"
+    if f0["act"] == "sig_stdout":
+        extra = "+while-printing"
     tag = "%s|%s%s|%s" % (mode, signame, extra, phase)
     digest = hashlib.sha256((res.trace_digest() + core.digest_world(run["after"])).encode()).hexdigest()
     scenario = {"wm": world.wm_to_json(wm), "knobs": knobs, "plan": plan, "check": check}
@@ -247,6 +249,13 @@ def run_case(rng, idx, tier, ctx):
             o = rng.choice(pass2)
             extra.append(("stdout", {"seed": base["seed"], "perm": True, "stdout_sig": True,
                                      "faults": [{"k": o.k, "act": rng.choice(["sig_before", "sig_after"]), "signo": rng.choice([2, 15])}]}))
+    nlines = len(tres.stdout.splitlines())
+    if nlines:
+        # the signal arrives while a log line is being written (the printing thread is inside its stdout write): whatever a
+        # handler does must be safe there
+        for n in (rng.sample(range(1, nlines + 1), min(nlines, 3)) if not thorough else range(1, nlines + 1)):
+            extra.append(("inprint", {"seed": base["seed"], "perm": True,
+                                      "faults": [{"act": "sig_stdout", "nth": n, "signo": rng.choice([2, 15])}]}))
     if not ctx.samples:
         ctx.samples.append({"mode": "check" if check else "edit", "files": sorted(wm["files"]), "k0": k0, "K": K,
                             "twin_ops": [o.short() for o in ops][:50], "first_plans": [p["faults"] for p in plans[:4]]})
@@ -278,6 +287,8 @@ def run_case(rng, idx, tier, ctx):
                 ctx.probes["stalled_operation_after_signal"] += 1
             if name == "stdout":
                 ctx.probes["stdout_gone_with_signal"] += 1
+            if name == "inprint":
+                ctx.probes["signal_while_printing"] += 1
         viols += vs
     return viols
 
